@@ -12,7 +12,9 @@ RULE = ("Generated structures: orthorhombic or LAMMPS-tilted cell (all tilt-sign
         "trailing comment, negative charges and coordinates (atoms also outside the box), both atom styles. Each "
         "file written by the real save_lmpdat is parsed by the harness's independent reader (and ASE for cell and "
         "positions) and compared field by field with the structure; then read back by the real load_lmpdat and "
-        "compared; then save(load(save(b))) must equal save(b) byte for byte. Non-trivial: tilted cell or at least "
+        "compared; then save(load(save(b))) must equal save(b) byte for byte. History: the object just written is edited (labels "
+        "renamed by assignment or in place, positions/charges/types/cell/terms changed in place, sizes unchanged) and "
+        "written again; the second file is judged against the object's state at that time. Non-trivial: tilted cell or at least "
         "two term kinds with tables; distinct by generator seed.")
 ASSUMPTIONS = ["only files written by mofun are read back (the property is about mofun's own files)",
                "type labels contain no '#' and no whitespace; masses are real element masses so element guessing (C14) is not in play"]
@@ -332,6 +334,57 @@ def run_case(case, ctx):
         fc = ["UiO-66 linker", "structure 12", "generated by the harness, step 3"][len(a) % 9 // 3]
         if not t1.split("\n")[0].startswith(fc):
             fail("the title line is %r although file_comment=%r was requested (via %s)" % (t1.split("\n")[0], fc, case["via"]), "file_comment")
+    # history: the object that has just been written is edited (same sizes everywhere) and written again; the second file
+    # must state the object's content at the time of the second write
+    if case["s"] % 2 == 0 and len(a):
+        edits = []
+        nat = len(a.atom_type_labels)
+        pick = int(rng.integers(4))
+        if pick in (0, 3):
+            new = ["R%d_%s" % (t, str(a.atom_type_labels[t])[:3]) for t in range(nat)]
+            if rng.integers(2):
+                a.atom_type_labels = type(a.atom_type_labels)(new) if isinstance(a.atom_type_labels, list) else np.array(new)
+                edits.append("labels_reassigned")
+            else:
+                lab = np.asarray(a.atom_type_labels)
+                if isinstance(a.atom_type_labels, np.ndarray) and lab.dtype.kind == "U":
+                    for t in range(nat):
+                        a.atom_type_labels[t] = ("Q" + str(lab[t])[1:]) if len(str(lab[t])) else "Q"
+                    edits.append("labels_edited_in_place")
+                else:
+                    a.atom_type_labels = new
+                    edits.append("labels_reassigned")
+        if pick in (1, 3):
+            a.positions *= 0.5
+            a.charges += 0.125
+            if len(a) >= 2:
+                a.atom_types[[0, -1]] = a.atom_types[[-1, 0]]
+            edits.append("positions_charges_types_in_place")
+        if pick in (2, 3):
+            a.cell[0, 0] *= 1.25
+            for kind in atomsgen.KNAMES:
+                ty = getattr(a, "%s_types" % kind)
+                if len(ty) >= 2:
+                    ty[[0, -1]] = ty[[-1, 0]]
+                arr = getattr(a, atomsgen.ARR[kind])
+                if len(arr):
+                    arr[0] = arr[0][::-1].copy()
+            edits.append("cell_terms_in_place")
+        w2 = dict(w, history=edits, structure_now=atomsgen.describe(a))
+
+        def fail2(msg, cls):
+            ctx.fail("second write of the same object after %s: %s" % ("+".join(edits), msg), witness=dict(w2, clause=cls))
+        try:
+            t4 = save_text(a, style, "method")
+            compare_file_with_atoms(lmpread.parse(t4, atom_style=style), a, style, fail2)
+            compare_loaded(load_text(t4, style, "method", 0), a, style, fail2, what="read back after the second write")
+            st.count("second_writes_after_edit")
+            for e in edits:
+                st.seen("history_edit", e)
+        except Exception as e:
+            if type(e).__name__ == "PostBroken":
+                raise
+            fail2("raised %s: %s" % (type(e).__name__, e), "second_write_raises")
     if case["cell"] == "tri" or ntab >= 2:
         ctx.nontrivial(case["s"])
     if case["cell"] == "tri" and ntab >= 2:
@@ -348,6 +401,8 @@ def requirements(stats, tier):
         need.append("cells with tilt factors near the printed precision: %d" % stats.get("cells_with_tilts_near_the_printed_precision"))
     if stats.nseen("two_digit_table") < 5:
         need.append("coefficient tables with >= 10 entries observed for only %d of 5 sections" % stats.nseen("two_digit_table"))
+    if stats.get("second_writes_after_edit") < (60 if tier == "quick" else 20000) or stats.nseen("history_edit") < 3:
+        need.append("second writes of an edited object: %d, edit kinds %s" % (stats.get("second_writes_after_edit"), sorted(stats.sets.get("history_edit", []))))
     if stats.nseen("style") < 2 or stats.nseen("tables") < 5:
         need.append("both styles and all five coefficient sections must be observed")
     if stats.get("ase_agreed") < stats.get("files_written") * 0.9:
